@@ -57,6 +57,7 @@ type FRTScenario struct {
 	Nbrs     [][]int `json:"nbrs,omitempty"`  // per peer (1-based) the peers it lists
 	Fails    []int   `json:"fails,omitempty"` // peers that cannot be queried
 	Seeds    []int   `json:"seeds,omitempty"`
+	SeedNoAddr []int `json:"seednoaddr,omitempty"` // seeds given by id only, with no address known
 	Par      int     `json:"par,omitempty"`
 	// ops: which construction options are present
 	WithBootstrap bool   `json:"withbootstrap,omitempty"`
@@ -482,8 +483,16 @@ func runFRTCrawl(t *testing.T, sc *FRTScenario, ch sim.Chooser) []sim.Ev {
 		t.Fatalf("NewDefaultCrawler: %v", err)
 	}
 	seeds := []*peer.AddrInfo{}
+	noAddr := map[int]bool{}
+	for _, s := range sc.SeedNoAddr {
+		noAddr[s] = true
+	}
 	for _, s := range sc.Seeds {
-		seeds = append(seeds, &peer.AddrInfo{ID: ids[s-1], Addrs: []ma.Multiaddr{frtAddr(1, s)}})
+		ai := &peer.AddrInfo{ID: ids[s-1]}
+		if !noAddr[s] {
+			ai.Addrs = []ma.Multiaddr{frtAddr(1, s)}
+		}
+		seeds = append(seeds, ai)
 	}
 	var mu sync.Mutex
 	okCount := map[int]int{}
@@ -539,7 +548,7 @@ func runFRTCrawl(t *testing.T, sc *FRTScenario, ch sim.Chooser) []sim.Ev {
 		nb = append(nb, append([]int{}, x...))
 	}
 	tr.Add("Reset", "kind", "crawl", "K", 0, "limit", 0, "n", n, "groups", []any{}, "tablesize", 0, "ts", 0)
-	tr.Add("Crawl", "n", n, "nbrs", nb, "fails", append([]int{}, sc.Fails...), "seeds", append([]int{}, sc.Seeds...), "par", sc.Par,
+	tr.Add("Crawl", "n", n, "nbrs", nb, "fails", append([]int{}, sc.Fails...), "seeds", append([]int{}, sc.Seeds...), "seednoaddr", append([]int{}, sc.SeedNoAddr...), "par", sc.Par,
 		"connects", connects, "ok", oks, "fail", fs, "hang", hang)
 	if hang {
 		for _, it := range gate.Pending() {
@@ -613,6 +622,11 @@ func genFRTScenario(r *rand.Rand, kind string) *FRTScenario {
 		}
 		for j := 0; j < r.Intn(4); j++ {
 			sc.Seeds = append(sc.Seeds, 1+r.Intn(n))
+		}
+		for _, sd := range sc.Seeds {
+			if r.Intn(4) == 0 {
+				sc.SeedNoAddr = append(sc.SeedNoAddr, sd)
+			}
 		}
 		sc.Par = 1 + r.Intn(3)
 	case "ops":
